@@ -395,3 +395,39 @@ func (c *Ctx) fromReflectTypeString(v ssa.Value, depth int) bool {
 	}
 	return false
 }
+
+// R-MUSTCALL (C10, C04): library functions that panic on a bad argument instead of returning an error
+// (regexp.MustCompile, template.Must, ...) must only be given constants in code reachable from the loaders or the data
+// API: a pattern assembled from schema state (unit names, multipliers) that a received description controls turns
+// a bad description into a panic on first use. Obligation per call; discharged for a constant argument or a recover
+// scope.
+func (c *Ctx) ruleMustCall(rule string, fns map[*ssa.Function]bool) {
+	n := 0
+	for _, fn := range c.M.SortedFuncs(fns) {
+		cnt := 0
+		for _, b := range fn.Blocks {
+			for _, in := range b.Instrs {
+				call, ok := in.(*ssa.Call)
+				if !ok {
+					continue
+				}
+				name := core.StaticCalleeName(&call.Call)
+				if !(strings.HasPrefix(name, "regexp.MustCompile") || strings.HasSuffix(name, "template.Must")) {
+					continue
+				}
+				n++
+				cnt++
+				k := key(rule, c.M.Key(fn), sprintf("%s #%d", name, cnt))
+				if _, isConst := call.Call.Args[0].(*ssa.Const); isConst {
+					c.R.Ok(rule, k, c.M.InstrPos(call), "panicking constructor", "constant argument")
+				} else if isRecoverScope(fn) {
+					c.R.Ok(rule, k, c.M.InstrPos(call), "panicking constructor", "the function recovers")
+				} else {
+					c.R.Bad(rule, k, c.M.InstrPos(call), name+" on a pattern built at run time",
+						"the argument is assembled from schema state; a description that makes it invalid (e.g. a negative unit multiplier: the group name g-5) is accepted at load time and panics on first use")
+				}
+			}
+		}
+	}
+	c.R.Note("%s: %d Must* calls in scope", rule, n)
+}
